@@ -294,11 +294,16 @@ def run_shard(ctx: ShardCtx) -> ShardResult:
             model = Model(data)
             for _ in range(ctx.rng.randrange(1, 12)):
                 n_ = ctx.rng.randrange(0, len(data) + 3)
-                if ctx.rng.random() < 0.5:
-                    got, want = rd.read(n_), model.read(n_)
-                else:
-                    o = ctx.rng.randrange(-2, len(data) + 3)
-                    got, want = rd.seek(o), model.seek(o, 0)
+                try:
+                    if ctx.rng.random() < 0.5:
+                        got, want = rd.read(n_), model.read(n_)
+                    else:
+                        o = ctx.rng.randrange(-2, len(data) + 3)
+                        got, want = rd.seek(o), model.seek(o, 0)
+                except Exception as err:    # the model never raises on these programs
+                    res.violation('operation-raises', f'BufferedReader(data=..) operation raised {err!r}',
+                                  {'preloaded': data.hex()})
+                    break
                 res.count('ops.preloaded')
                 if got != want:
                     mech = 'eof-returns-str-not-bytes' if got == '' else 'preloaded-data-disagrees'
